@@ -31,12 +31,10 @@ Definition is_canonical_dec (s : str) : bool :=
 Fixpoint dec_value (s : str) (acc : N) : N :=
   match s with [] => acc | c :: r => dec_value r (10 * acc + (c - 48)) end.
 
-(* what writing the key without quotes does to it.  (The second conjunct — the value prints back as the same text —
-   is implied by the first for every digit string; it is kept executable so that no arithmetic lemma about [dec] is
-   needed; Proofs/Render.v checks it on 0..999 and the yamlkey stream checks [retype_key] against PyYAML.) *)
+(* what writing the key without quotes does to it *)
 Definition retype_key (k : key) : key :=
   match k with
-  | KStr s => if is_canonical_dec s && str_eqb (dec (dec_value s 0)) s then KInt (dec_value s 0) else k
+  | KStr s => if is_canonical_dec s then KInt (dec_value s 0) else k
   | KInt _ => k
   end.
 
